@@ -123,6 +123,22 @@ Definition wire_case (c : case) : bool :=
 Definition ids_clean (self from : bstr) (l : list apeer) : bool :=
   forallb (fun p => negb (bstr_eqb (p_id p) self) && negb (bstr_eqb (p_id p) from)) l.
 
+(* nearest first: the XOR distances of the listed routing-table peers never decrease *)
+Fixpoint kad_of (rt : list rpeer) (id : bstr) : option N :=
+  match rt with
+  | [] => None
+  | p :: rt' => if bstr_eqb (rp_id p) id then Some (rp_kad p) else kad_of rt' id
+  end.
+Fixpoint nondecreasing (l : list N) : bool :=
+  match l with
+  | a :: ((b :: _) as l') => N.leb a b && nondecreasing l'
+  | _ => true
+  end.
+Definition nearest_first (nd : node) (k : N) (l : list apeer) : bool :=
+  forallb (fun p => match kad_of (n_rt nd) (p_id p) with Some _ => true | None => false end) l
+  && nondecreasing (map (fun p => match kad_of (n_rt nd) (p_id p) with
+                                  | Some x => N.lxor x k | None => 0%N end) l).
+
 Definition prop_ok (c : case) : bool :=
   let nd := c_node c in
   if negb (wire_case c) then true
@@ -155,11 +171,14 @@ Definition prop_ok (c : case) : bool :=
                                if bstr_eqb (p_id p) (q_key q)
                                then ids_clean (n_self nd) (c_from c) rest
                                     && (length rest <=? n_K nd)%nat
+                                    && nearest_first nd (q_kad q) rest
                                else ids_clean (n_self nd) (c_from c) (p :: rest)
                                     && (length (p :: rest) <=? n_K nd)%nat
+                                    && nearest_first nd (q_kad q) (p :: rest)
                            end
                    else (length (s_closer r) <=? n_K nd)%nat
                         && ids_clean (n_self nd) (c_from c) (s_closer r)
+                        && nearest_first nd (q_kad q) (s_closer r)
                  else true)
          | IRespond _ _ _, None => false
          | _, _ => true
